@@ -6,12 +6,13 @@ import itertools
 ID = 'C10'
 HARNESS = {'name': 'c10',
            'sources': ['harness/c10_harness.cpp', 'harness/c10_p1.cpp', 'harness/c10_p2.cpp',
-                       'harness/c10_p3.cpp', 'harness/c10_p4.cpp', 'harness/c10_p5.cpp'],
+                       'harness/c10_p3.cpp', 'harness/c10_p4.cpp', 'harness/c10_p5.cpp', 'harness/c10_p6.cpp'],
            'sanitize': True}
 
 NPOS = 2 ** 64 - 1
 BIGS = [2 ** 64 - 1, 2 ** 64 - 2, 2 ** 63]
-LARGE_CAPS = [4, 5, 8, 10, 255, 256, 300]
+LARGE_CAPS = [4, 5, 8, 10, 30, 254, 255, 256, 300]
+ALL_CAPS = [1, 2, 3, 4, 5, 8, 10, 30, 254, 255, 256, 300]
 
 RULE = ('case = capacity L x initial content of the object and of a second object x list of operations '
         '(mode A: any argument values). Exhaustive part: L in 1..2 (quick) / 1..3 (thorough), every content over '
@@ -173,7 +174,7 @@ def all_ops(L, mode, olen):
     return mut, obs
 
 
-MUT_FAMILIES = ('asg', 'ctor', 'ins', 'erase', 'push', 'pop', 'app', 'pe', 'sprintf', 'rep', 'swap', 'clear')
+MUT_FAMILIES = ('asg', 'ctor', 'ins', 'erase', 'push', 'pop', 'app', 'pe', 'sprintf', 'rep', 'swap', 'clear')  # sprintf_lc / sprintf_wide: family 'sprintf'
 
 
 def is_mutator(tok):
@@ -315,7 +316,7 @@ def rnd_op(rng, L, mode, olen):
     s = lambda: hx(rnd_text(rng, min(rnd_len(rng, L), 620)))
     ss = lambda: hx(rnd_text(rng, rng.range(0, 5)))
     ch = lambda: rng.choice(['61', '62', '63'])
-    k = rng.below(62)
+    k = rng.below(63)
     table = [
         lambda: 'asg_c:' + s(), lambda: 'asg_s:' + s(), lambda: 'asg_fs', lambda: 'ctor_c:' + s(), lambda: 'ctor_mv',
         lambda: 'ins_nc:%s:%s:%s' % (p(), sc(), ch()), lambda: 'ins_c:%s:%s' % (p(), s()), lambda: 'ins_s:%s:%s' % (p(), s()),
@@ -338,6 +339,7 @@ def rnd_op(rng, L, mode, olen):
         lambda: 'erase_itr:%s:%s' % (p(), p()), lambda: 'app_it:%d:%d' % (0, rng.range(0, olen)),
         lambda: '%s:%s:%s:%s' % (rng.choice(['it', 'rit']), p(), rng.choice(['inc', 'dec', 'add', 'sub']), c()),
         lambda: '%s:%s:%s:%s' % (rng.choice(['it', 'rit']), p(), rng.choice(['inc', 'dec']), '0'),
+        lambda: 'sprintf_lc:' + ss(),
     ]
     return table[k % len(table)]()
 
@@ -349,8 +351,87 @@ def gen_random(mode, rng, n):
         init = rnd_text(rng, min(rnd_len(rng, L), 400))
         oinit = rnd_text(rng, min(rnd_len(rng, L), 400))
         ops = [rnd_op(rng, L, mode, min(len(oinit), L)) for _ in range(rng.range(4, 24))]
+        if not probe_sprintf_triggers()['lc']:
+            ops = [o.replace('sprintf_lc:', 'sprintf:') for o in ops]
         cases.append('%s %d %s %s %s' % (mode, L, hx(init), hx(oinit), ' '.join(ops)))
     return cases
+
+
+# ---------------------------------------------------------------------------------------------------
+# sprintf whose vsnprintf call fails (error path: length 0, terminator at 0)
+
+_probe_cache = {}
+
+
+def probe_sprintf_triggers(want_wide=True):
+    """Ask the harness (i.e. the C library it is linked with) whether the two ways to make vsnprintf fail
+    really fail here.  Returns {'lc': bool, 'wide': bool}.  A trigger that does not fire is not generated
+    (and reported in the scopes); it never raises an alarm."""
+    key = 'all' if want_wide else 'lc'
+    if key in _probe_cache:
+        return _probe_cache[key]
+    import sys
+    sys.path.insert(0, '/verif/lib')
+    import vf
+    res = {'lc': False, 'wide': False}
+    exe, err = vf.build_harness(HARNESS['name'], HARNESS['sources'], HARNESS.get('repo_sources', ()),
+                                sanitize=HARNESS.get('sanitize', True), extra_flags=HARNESS.get('flags', ()))
+    if exe is not None:
+        d = vf.WORK / 'C10_probe'
+        d.mkdir(parents=True, exist_ok=True)
+        cf = d / 'probe.txt'
+        lines = ['p0 A 4 - - sprintf_lc:6162']
+        if want_wide:
+            lines.append('p1 A 4 - - sprintf_wide:6162')
+        cf.write_text('\n'.join(lines) + '\n')
+        out = vf.run_cases(exe, cf, timeout=120)
+        res['lc'] = 'p0' in out and 'nofire' not in out['p0'] and 'CRASH' not in out['p0']
+        res['wide'] = 'p1' in out and 'nofire' not in out['p1'] and 'CRASH' not in out['p1']
+        try:
+            cf.unlink()
+            d.rmdir()
+        except OSError:
+            pass
+    _probe_cache[key] = res
+    return res
+
+
+def gen_sprintf_fail(mode, tier):
+    """the failing sprintf after every kind of prior content (empty, short, full at L) on every capacity of
+    the harness, followed by nothing / by observers / by an append; the object is inspected right after
+    the failing call (every step prints length, strlen, terminator verdict, bytes)"""
+    quick = tier == 'quick'
+    fired = probe_sprintf_triggers()
+    cases = []
+    info = []
+    followers = [[], ['str', 'len', 'empty', 'itf', 'cmp_c:' + hx('abc'), 'back'], ['app_c:' + hx('xy')],
+                 ['push:7a', 'str']]
+    if fired['lc']:
+        n = 0
+        for L in ALL_CAPS:
+            priors = ['', 'q', 'q' * L]
+            for prior in dict.fromkeys(priors):
+                for text in ['abc', 'a' * (L + 3)] + ([] if quick else ['', 'ab' * L]):
+                    for fol in followers:
+                        cases.append('%s %d %s - %s' % (mode, L, hx(prior), ' '.join(['sprintf_lc:' + hx(text)] + fol)))
+                        n += 1
+        info.append('failing sprintf (%%lc with a wide character that cannot be converted): %d cases, every capacity '
+                    'of the harness x prior content empty/short/full x followed by nothing/observers/append' % n)
+    else:
+        info.append('failing sprintf (%lc): the C library converted the character, trigger did not fire, 0 cases')
+    if fired['wide']:
+        # every call writes 2^31 characters of padding (about 4 s): a few cases only
+        caps = [2, 255] if quick else [1, 2, 30, 254, 255, 256]
+        n = 0
+        for i, L in enumerate(caps):
+            prior = ['q' * L, '', 'q'][i % 3]
+            fol = followers[(i + 2) % len(followers)]
+            cases.append('%s %d %s - %s' % (mode, L, hx(prior), ' '.join(['sprintf_wide:' + hx('abc')] + fol)))
+            n += 1
+        info.append('failing sprintf (field widths of more than INT_MAX characters): %d cases on L in %s' % (n, caps))
+    else:
+        info.append('failing sprintf (more than INT_MAX characters): vsnprintf did not fail, trigger did not fire, 0 cases')
+    return cases, info
 
 
 def gen_cases(tier, rng):
@@ -362,12 +443,14 @@ def gen_cases(tier, rng):
         cases += gen_two_step('A', [1, 2])
     nrand = 1500 if quick else 15000
     cases += gen_random('A', rng, nrand)
+    fail_cases, fail_info = gen_sprintf_fail('A', tier)
+    cases += fail_cases
     return {'cases': cases, 'exhaustive': True,
             'scopes': ['exhaustive: L in %s, all contents over {a,b}, every operation with positions/counts in 0..L+2 and '
                        '{2^64-1, 2^64-2, 2^63}, sources of length 0..L+2 (24 operations per case, each on a freshly '
                        'constructed object)' % caps]
                       + ([] if quick else ['exhaustive: two-step mutator histories on L in 1..2'])
-                      + ['random: %d histories of 4..24 operations on L in %s' % (nrand, LARGE_CAPS)]}
+                      + ['random: %d histories of 4..24 operations on L in %s' % (nrand, LARGE_CAPS)] + fail_info}
 
 
 def steps(r):
@@ -381,7 +464,8 @@ def histogram_keys(case, mr):
     keys = ['%s L=%s' % (w[0], w[1])]
     fams = set()
     for t in w[4:]:
-        fams.add(t.split(':')[0].split('_')[0])
+        n = t.split(':')[0]
+        fams.add(n if n.startswith('sprintf') else n.split('_')[0])
     keys += sorted('op ' + f for f in fams)
     return keys
 
